@@ -324,8 +324,8 @@ class SeekableStreamReaderWrapper(TellableStreamWrapper):
 
     async def seek(self, offset: int) -> None:
         if offset > self.position:
-            await self.stream.read(offset - self.position)
-            self.position = offset
+            # `TellableStreamWrapper.read` loops on short reads and updates the position
+            await self.read(offset - self.position)
         elif offset < self.position:
             raise tarfile.ReadError("Cannot seek backward with streams")
 
